@@ -922,7 +922,7 @@ theorem q11_superclassesG_reg (env : Env) (inline : String → G String)
     converted to the naming convention and keyword-escaped segment by segment, and the last segment, converted
     (as a non-class name) and keyword-escaped; there is never an `as` clause -/
 def q11_importLine (safe : Bool) (imp : String) : String :=
-  "from " ++ escapePath (convertName (joinWith "." (dropLast' (splitDot imp))) safe) ++ " import "
+  "from " ++ escapePath (convertPath (joinWith "." (dropLast' (splitDot imp))) safe) ++ " import "
     ++ escapeKeyword (convertName (lastD "" (splitDot imp)) safe)
 
 /-- the lines of the import block: one per registered path, sorted -/
@@ -1084,7 +1084,7 @@ def q11_importedName (safe : Bool) (c : String) : String :=
 
 /-- the package path both the import line and the placeholder's package line spell -/
 def q11_packageText (safe : Bool) (c : String) : String :=
-  escapePath (convertName (joinWith "." (dropLast' (splitDot c))) safe)
+  escapePath (convertPath (joinWith "." (dropLast' (splitDot c))) safe)
 
 theorem q11_importLine_eq (safe : Bool) (c : String) :
     q11_importLine safe c = "from " ++ q11_packageText safe c ++ " import " ++ q11_importedName safe c := rfl
